@@ -80,8 +80,14 @@ func (r *Run) Shard() (int, int) {
 
 func (r *Run) IsWorker() bool { return r.shard != "" }
 
+// loadFindings parses /verif/known_findings.txt. Line formats:
+//
+//	known: property=<id> signature=<sig> :: <what fails>
+//	fixed: property=<id> <commit> signature=<sig> :: <what failed>
+//
+// "fixed" lines suppress nothing; they are documentation.
 func (r *Run) loadFindings() {
-	f, err := os.Open(filepath.Join(r.VerifDir, "known_findings.jsonl"))
+	f, err := os.Open(filepath.Join(r.VerifDir, "known_findings.txt"))
 	if err != nil {
 		return
 	}
@@ -94,9 +100,30 @@ func (r *Run) loadFindings() {
 			continue
 		}
 		var fd Finding
-		if json.Unmarshal([]byte(line), &fd) == nil {
-			r.findings = append(r.findings, fd)
+		switch {
+		case strings.HasPrefix(line, "known:"):
+			fd.Status = "known"
+			line = strings.TrimSpace(line[len("known:"):])
+		case strings.HasPrefix(line, "fixed:"):
+			fd.Status = "fixed"
+			line = strings.TrimSpace(line[len("fixed:"):])
+		default:
+			continue
 		}
+		head, what, _ := strings.Cut(line, " :: ")
+		fd.What = what
+		if k := strings.Index(head, "signature="); k >= 0 {
+			fd.Signature = strings.TrimSpace(head[k+len("signature="):])
+			head = head[:k]
+		}
+		for _, fld := range strings.Fields(head) {
+			if strings.HasPrefix(fld, "property=") {
+				fd.Property = fld[len("property="):]
+			} else {
+				fd.Commit = fld
+			}
+		}
+		r.findings = append(r.findings, fd)
 	}
 }
 
